@@ -223,7 +223,7 @@ class Socket(base_socket.BaseSocket):
         self.server.logger.info(
             '%s: Upgrade to websocket successful', self.sid)
 
-        while True:
+        while not self.closed:
             p = None
             try:
                 p = websocket_wait()
